@@ -372,9 +372,12 @@ inline void workerLoop(Harness &h, const DriverArgs &a, int w, int W, uint64_t s
     Json plan = h.generate(rs, i);
     plan["seed"] = Json(std::to_string(rs));
     g_log.reset(false);
+    auto tr0 = std::chrono::steady_clock::now();
     Outcome o = h.execute(plan);
+    double runMs = std::chrono::duration<double, std::milli>(std::chrono::steady_clock::now() - tr0).count();
     Json line = Json::object();
     line["i"] = (unsigned long long)i;
+    if (runMs > 2000) line["ms"] = (unsigned long long)runMs;      // diagnostics only: never part of a hash or a verdict
     line["h"] = o.hash;
     line["nt"] = o.nontrivial;
     line["note"] = o.note;
@@ -549,6 +552,7 @@ inline int driverMain(int argc, char **argv, Harness &h) {
   std::map<std::string, uint64_t> counters, notes, knownBySig;
   std::vector<Json> samples, violationRecs;
   std::vector<std::string> machineryErrors;
+  std::vector<std::pair<uint64_t, uint64_t>> slowRuns;     // (milliseconds, index) of runs that took more than 2 s
 
   auto handleLine = [&](int w, const std::string &ln) {
     if (ln.size() < 2) return;
@@ -576,6 +580,7 @@ inline int driverMain(int argc, char **argv, Harness &h) {
     notes[note.substr(0, note.find(' '))]++;
     if (auto *k = r.find("keys")) for (auto &s : k->a) keys.insert(s.s);
     if (auto *s = r.find("sample")) if (samples.size() < 6) samples.push_back(*s);
+    if (r.has("ms")) slowRuns.push_back({r.getU64("ms"), r.getU64("i")});
     if (a.hashesOnly) std::printf("H %llu %s %s\n", (unsigned long long)r.getU64("i"), hh.c_str(), note.c_str());
     if (auto *v = r.find("v")) {
       if (v->getBool("known")) { knownHits++; knownBySig[v->getStr("sig")]++; return; }
@@ -702,6 +707,12 @@ inline int driverMain(int argc, char **argv, Harness &h) {
   st["machinery_errors"] = mj;
   st["describe"] = h.describe();
   if (!a.outPath.empty()) writeFile(a.outPath, st.dump(1) + "\n");
+  if (!slowRuns.empty() && !a.quiet && !a.hashesOnly) {
+    std::sort(slowRuns.rbegin(), slowRuns.rend());
+    std::string sl;
+    for (size_t k = 0; k < slowRuns.size() && k < 5; k++) sl += " #" + std::to_string(slowRuns[k].second) + ":" + std::to_string(slowRuns[k].first) + "ms";
+    std::printf("SLOW-RUNS %zu over 2 s, slowest%s\n", slowRuns.size(), sl.c_str());
+  }
   if (!a.quiet) {
     std::printf("SUMMARY property=%s runs=%llu violations=%llu known=%llu distinct_nontrivial=%llu cycles=%llu wall=%.1fs\n",
                 a.property.c_str(), (unsigned long long)evaluations, (unsigned long long)violations,
